@@ -71,6 +71,13 @@ pub struct Case {
     /// ANSI font pages installed in the buffer's font slots 1, 2, …; a cell selects slot `(flags >> 10) & 7` (bits
     /// 10..12 of the picture's flag word are not attribute bits: they are stripped when the buffer is built)
     pub fonts: Vec<usize>,
+    /// further fonts: (slot 0..=7, ANSI font page, custom): `custom` = the ANSI font with one pixel flipped (a font that
+    /// matches no ANSI font page: the writer sends its SLOT number); may replace slot 0 or a slot of `fonts`
+    pub xfonts: Vec<(usize, usize, bool)>,
+    /// `output_line_length` (`push_result` splits the output with CSI s / CR LF / CSI u)
+    pub oll: Option<usize>,
+    /// `skip_lines` (rows the writer leaves out when it positions every row with CSI y H)
+    pub skip: Option<Vec<usize>>,
 }
 
 /// ANSI font pages that keep the property's reading of "CP437 characters": 16 pixel rows like the default font, and
@@ -111,11 +118,52 @@ impl Case {
             format!("@{}", self.base.iter().map(|(i, c)| format!("{}={:02x}{:02x}{:02x}", i, c.0, c.1, c.2)).collect::<Vec<_>>().join(","))
         };
         let fonts = if self.fonts.is_empty() { String::new() } else { format!("#{}", self.fonts.iter().map(|f| f.to_string()).collect::<Vec<_>>().join(".")) };
-        format!("{}{}{}:{}:{}", self.opts.num(), base, fonts, self.opts.sauce as u8, self.pic.encode())
+        let oll = match self.oll {
+            Some(n) => format!("%{}", n),
+            None => String::new(),
+        };
+        let skip = match &self.skip {
+            Some(v) => format!("${}", v.iter().map(|f| f.to_string()).collect::<Vec<_>>().join(".")),
+            None => String::new(),
+        };
+        let xf = if self.xfonts.is_empty() {
+            String::new()
+        } else {
+            format!("&{}", self.xfonts.iter().map(|(s, p, c)| format!("{}{}{}", s, if *c { 'c' } else { 'a' }, p)).collect::<Vec<_>>().join("."))
+        };
+        format!("{}{}{}{}{}{}:{}:{}", self.opts.num(), base, fonts, xf, oll, skip, self.opts.sauce as u8, self.pic.encode())
     }
     pub fn decode(s: &str) -> Option<Case> {
         let mut it = s.splitn(3, ':');
         let first = it.next()?;
+        let (first, skipstr) = match first.split_once('$') {
+            Some((a, b)) => (a, Some(b)),
+            None => (first, None),
+        };
+        let skip = match skipstr {
+            Some("") => Some(Vec::new()),
+            Some(t) => Some(t.split('.').map(|e| e.parse::<usize>().ok()).collect::<Option<Vec<_>>>()?),
+            None => None,
+        };
+        let (first, ollstr) = match first.split_once('%') {
+            Some((a, b)) => (a, Some(b)),
+            None => (first, None),
+        };
+        let oll = match ollstr {
+            Some(t) => Some(t.parse::<usize>().ok()?),
+            None => None,
+        };
+        let (first, xfstr) = match first.split_once('&') {
+            Some((a, b)) => (a, Some(b)),
+            None => (first, None),
+        };
+        let mut xfonts = Vec::new();
+        if let Some(t) = xfstr {
+            for e in t.split('.') {
+                let k = e.find(|c| c == 'a' || c == 'c')?;
+                xfonts.push((e[..k].parse().ok()?, e[k + 1..].parse().ok()?, &e[k..k + 1] == "c"));
+            }
+        }
         let (first, fontstr) = match first.split_once('#') {
             Some((a, b)) => (a, Some(b)),
             None => (first, None),
@@ -141,7 +189,18 @@ impl Case {
         }
         let sauce = it.next()? != "0";
         let pic = Pic::decode(it.next()?)?;
-        Some(Case { opts: Opts::from_num(n, sauce), pic, base, fonts })
+        Some(Case { opts: Opts::from_num(n, sauce), pic, base, fonts, xfonts, oll, skip })
+    }
+    /// the options the buffer is saved with
+    pub fn save_options(&self) -> SaveOptions {
+        let mut o = self.opts.save_options();
+        o.output_line_length = self.oll;
+        o.skip_lines = self.skip.clone();
+        o
+    }
+    /// row `y` is left out by the writer (`skip_lines` acts only together with longer-terminal positioning)
+    pub fn skipped(&self, y: i32) -> bool {
+        self.opts.bits & 16 != 0 && self.skip.as_ref().map(|v| v.contains(&(y as usize))).unwrap_or(false)
     }
     /// the buffer that is saved
     pub fn build(&self) -> Buffer {
@@ -152,6 +211,17 @@ impl Case {
         for (k, page) in self.fonts.iter().enumerate() {
             if let Ok(f) = icy_engine::BitFont::from_ansi_font_page(*page) {
                 buf.set_font(k + 1, f);
+            }
+        }
+        for (slot, page, custom) in &self.xfonts {
+            if let Ok(mut f) = icy_engine::BitFont::from_ansi_font_page(*page) {
+                if *custom {
+                    if let Some(g) = f.glyphs.get_mut(&'A') {
+                        g.data[0] ^= 1;
+                    }
+                    f.calculate_checksum();
+                }
+                buf.set_font(*slot, f);
             }
         }
         if self.has_fonts() {
@@ -195,12 +265,33 @@ impl Case {
             _ => !CONTROL_CHARS.contains(&ch),
         }
     }
+    /// the ANSI font page in a font slot (`None`: no font, or a font that is no ANSI font)
+    pub fn slot_page(&self, slot: usize) -> Option<usize> {
+        if let Some((_, p, c)) = self.xfonts.iter().rev().find(|(s, _, _)| *s == slot) {
+            return if *c { None } else { Some(*p) };
+        }
+        if slot == 0 {
+            Some(0)
+        } else {
+            self.fonts.get(slot - 1).copied()
+        }
+    }
     pub fn in_quantifier(&self) -> bool {
         let p = &self.pic;
         let ncol = self.palette().len() as u32;
+        let ok = cp437_like_fonts();
         (if self.opts.sauce { (1..=132).contains(&p.w) } else { p.w == 80 })
             && (1..=60).contains(&p.h)
-            && p.rows.iter().flatten().all(|c| self.encodable(c.ch) && c.fg < ncol && c.bg < ncol && c.flags & !(WRITER_FLAGS | FONT_BITS) == 0 && font_slot(c.flags) <= self.fonts.len() && (self.fonts.is_empty() || { let ok = cp437_like_fonts(); self.fonts.iter().all(|f| ok.contains(f)) }) && !(p.ice == 1 && c.flags & 8 != 0))
+            // untouched cells are on font page 0
+            && self.slot_page(0).map(|f| ok.contains(&f)).unwrap_or(false)
+            && p.rows.iter().flatten().all(|c| {
+                self.encodable(c.ch)
+                    && c.fg < ncol
+                    && c.bg < ncol
+                    && c.flags & !(WRITER_FLAGS | FONT_BITS) == 0
+                    && self.slot_page(font_slot(c.flags)).map(|f| ok.contains(&f)).unwrap_or(false)
+                    && !(p.ice == 1 && c.flags & 8 != 0)
+            })
     }
 }
 
@@ -295,6 +386,12 @@ fn shape_key(case: &Case, what: &str, x: i32, y: i32, seen: &Buffer) -> String {
     if c.get_font_page() != 0 {
         k.push_str(":font");
     }
+    if case.oll.is_some() {
+        k.push_str(":linelen");
+    }
+    if case.skip.is_some() && o.bits & 16 != 0 {
+        k.push_str(":skip");
+    }
     k.push_str(&format!(":ice{}", case.pic.ice));
     k
 }
@@ -303,7 +400,7 @@ fn shape_key(case: &Case, what: &str, x: i32, y: i32, seen: &Buffer) -> String {
 fn check_case(case: &Case) -> Option<(String, String)> {
     let buf = case.build();
     let bytes = save(case, &buf);
-    let seen = if case.opts.lossless() { buf.flat_clone(false) } else { ColorOptimizer::new(&buf, &case.opts.save_options()).optimize(&buf) };
+    let seen = if case.opts.lossless() { buf.flat_clone(false) } else { ColorOptimizer::new(&buf, &case.save_options()).optimize(&buf) };
     check(case, &seen, &bytes)
 }
 
@@ -319,6 +416,10 @@ fn check(case: &Case, seen: &Buffer, bytes: &Result<Vec<u8>, String>) -> Option<
     };
     let bom = bytes.starts_with(&[0xEF, 0xBB, 0xBF]);
     for y in 0..p.h {
+        if case.skipped(y) {
+            // the writer was told to leave this row out
+            continue;
+        }
         for x in 0..p.w {
             let e = displayed(seen, x, y);
             let g = displayed(&loaded, x, y);
@@ -472,6 +573,27 @@ fn shrink(case: &Case, key: &str) -> Case {
             k += 1;
         }
     }
+    if !best.xfonts.is_empty() {
+        let mut c = best.clone();
+        c.xfonts.clear();
+        if same(&c) {
+            best = c;
+        }
+    }
+    if best.oll.is_some() {
+        let mut c = best.clone();
+        c.oll = None;
+        if same(&c) {
+            best = c;
+        }
+    }
+    if best.skip.is_some() {
+        let mut c = best.clone();
+        c.skip = None;
+        if same(&c) {
+            best = c;
+        }
+    }
     if !best.fonts.is_empty() && !best.has_fonts() {
         let mut c = best.clone();
         c.fonts.clear();
@@ -524,7 +646,7 @@ fn oracle(run: &mut Run, case: &Case, seen: &Buffer, bytes: &Result<Vec<u8>, Str
 }
 
 fn save(case: &Case, buf: &Buffer) -> Result<Vec<u8>, String> {
-    let o = case.opts.save_options();
+    let o = case.save_options();
     match catch(AssertUnwindSafe(|| buf.to_bytes("ans", &o))) {
         Ok(Ok(b)) => Ok(b),
         Ok(Err(e)) => Err(format!("err:{}", e)),
@@ -532,26 +654,162 @@ fn save(case: &Case, buf: &Buffer) -> Result<Vec<u8>, String> {
     }
 }
 
+/// the ANSI font pages' checksums (`generate_ansi_font_map` compares checksums)
+fn ansi_font_checksums() -> Vec<u32> {
+    static CS: std::sync::OnceLock<Vec<u32>> = std::sync::OnceLock::new();
+    CS.get_or_init(|| (0..icy_engine::ANSI_FONTS).map(|i| icy_engine::BitFont::from_ansi_font_page(i).map(|f| f.get_checksum()).unwrap_or(0)).collect()).clone()
+}
+
+/// the buffer's occupied font slots for the writer model: `slot=page` (first ANSI font page with the same checksum) or `slot=x`
+fn font_slots(buf: &Buffer) -> String {
+    let cs = ansi_font_checksums();
+    let mut v: Vec<(usize, Option<usize>)> = buf.font_iter().map(|(slot, f)| (*slot, cs.iter().position(|c| *c == f.get_checksum()))).collect();
+    v.sort();
+    if v == vec![(0, Some(0))] {
+        return "-".to_string();
+    }
+    v.iter().map(|(s, p)| format!("{}={}", s, p.map(|p| p.to_string()).unwrap_or("x".to_string()))).collect::<Vec<_>>().join(",")
+}
+
+/// the font page of every cell, rows joined by `/`, runs as `n*page`
+fn font_pages(buf: &Buffer, w: i32, h: i32) -> String {
+    let rows: Vec<Vec<usize>> = (0..h).map(|y| (0..w).map(|x| buf.get_char((x, y)).get_font_page()).collect()).collect();
+    if rows.iter().flatten().all(|p| *p == 0) {
+        return "-".to_string();
+    }
+    rows.iter()
+        .map(|r| {
+            let mut r = r.clone();
+            while r.last() == Some(&0) {
+                r.pop();
+            }
+            if r.is_empty() {
+                return "e".to_string();
+            }
+            let mut parts = Vec::new();
+            let mut i = 0;
+            while i < r.len() {
+                let mut j = i;
+                while j + 1 < r.len() && r[j + 1] == r[i] {
+                    j += 1;
+                }
+                parts.push(if j > i { format!("{}*{}", j - i + 1, r[i]) } else { r[i].to_string() });
+                i = j + 1;
+            }
+            parts.join(",")
+        })
+        .collect::<Vec<_>>()
+        .join("/")
+}
+
+/// which branches of the writer the case went through, read off the options and the file it produced (evidence histogram)
+fn writer_branches(run: &mut Run, case: &Case, seen: &Buffer, file: &[u8]) {
+    let data = split_sauce(file).0;
+    let o = case.opts;
+    let find = |pat: &[u8]| data.windows(pat.len()).any(|w| w == pat);
+    let count = |pat: &[u8]| data.windows(pat.len()).filter(|w| *w == pat).count();
+    let splits = count(b"\x1b[s\r\n\x1b[u");
+    if let Some(n) = case.oll {
+        run.count(if splits == 0 { "w:linelen:no-split" } else if splits < 4 { "w:linelen:1-3-splits" } else { "w:linelen:4+-splits" });
+        // a line that ends exactly at the split column / one byte past it (line = bytes between CR LF)
+        let mut start = 0;
+        let mut exact = false;
+        let mut over = false;
+        for i in 0..data.len() {
+            if i + 1 < data.len() && data[i] == 13 && data[i + 1] == 10 {
+                let l = i - start;
+                exact |= l == n;
+                over |= l == n + 1;
+                start = i + 2;
+            }
+        }
+        if exact {
+            run.count("w:linelen:line-ends-at-limit");
+        }
+        if over {
+            run.count("w:linelen:line-one-past-limit");
+        }
+        if n < 8 {
+            run.count("w:linelen:below-8");
+        }
+    }
+    if case.skip.is_some() {
+        let eff = (0..case.pic.h).filter(|y| case.skipped(*y)).count();
+        run.count(if o.bits & 16 == 0 { "w:skip:ignored(no longer-terminal)" } else if eff == 0 { "w:skip:none-effective" } else if case.skipped(0) { "w:skip:first-row" } else { "w:skip:rows" });
+    }
+    if find(b" D") && data.windows(4).any(|w| w == b"\x1b[0;") {
+        run.count("w:font-switch");
+    }
+    let slots = font_slots(seen);
+    if slots.contains("=x") {
+        run.count("w:font-slot-custom");
+    }
+    if o.bits & 1 != 0 {
+        let has = |fin: u8| {
+            // CSI n <fin> with decimal n
+            let mut i = 0;
+            while i + 2 < data.len() {
+                if data[i] == 27 && data[i + 1] == b'[' {
+                    let mut j = i + 2;
+                    while j < data.len() && data[j].is_ascii_digit() {
+                        j += 1;
+                    }
+                    if j > i + 2 && j < data.len() && data[j] == fin {
+                        return true;
+                    }
+                }
+                i += 1;
+            }
+            false
+        };
+        if o.bits & 2 != 0 && has(b'C') {
+            run.count("w:cuf");
+        }
+        if o.bits & 4 != 0 && has(b'b') {
+            run.count("w:rep");
+        }
+    }
+    if o.bits & 16 != 0 {
+        run.count("w:longer-terminal");
+    }
+    if data.starts_with(b"\x1b[0m\xef\xbb\xbf") {
+        run.count("w:bom-guard");
+    }
+    if find(b"t") && data.windows(2).any(|w| w == b"\x1b[") && find(b";") && case.palette().len() > 16 {
+        run.count("w:extra-colours");
+    }
+}
+
 fn one(run: &mut Run, case: &Case, with_lines: bool, seen_keys: &mut std::collections::BTreeSet<String>) -> Option<Vec<u8>> {
     let buf = case.build();
     let bytes = save(case, &buf);
-    run.nontrivial(fnv([case.opts.num() as u64, case.opts.sauce as u64, case.pic.hash()]));
+    run.nontrivial(fnv([case.opts.num() as u64, case.opts.sauce as u64, case.pic.hash(), case.oll.map(|n| n as u64 + 1).unwrap_or(0), fnv(case.skip.iter().flatten().map(|y| *y as u64 + 1))]));
     // the picture the writer is handed
-    let seen_buf = if case.opts.lossless() { buf.flat_clone(false) } else { ColorOptimizer::new(&buf, &case.opts.save_options()).optimize(&buf) };
-    if with_lines && !case.has_fonts() {
+    let seen_buf = if case.opts.lossless() { buf.flat_clone(false) } else { ColorOptimizer::new(&buf, &case.save_options()).optimize(&buf) };
+    if with_lines {
         let seen = Pic { rows: cells_of(&seen_buf, case.pic.w, case.pic.h), ..case.pic.clone() };
         let wobs = match &bytes {
             Ok(b) => hex(&split_sauce(b).0),
             Err(e) => e.split(':').next().unwrap_or("err").to_string(),
         };
         let ints = if case.base.is_empty() { seen.ints() } else { seen.ints_with_palette(&case.palette()) };
-        run.case(&format!("artio write ans {} {}", case.opts.model_num(), join_i(&ints)), &wobs);
+        let oll = case.oll.map(|n| n.to_string()).unwrap_or("-".to_string());
+        let skip = match &case.skip {
+            None => "-".to_string(),
+            Some(v) if v.is_empty() => "e".to_string(),
+            Some(v) => v.iter().map(|y| y.to_string()).collect::<Vec<_>>().join(","),
+        };
+        run.case(&format!("artio writex ans {} {} {} {} {} {}", case.opts.model_num(), oll, skip, font_slots(&seen_buf), font_pages(&seen_buf, case.pic.w, case.pic.h), join_i(&ints)), &wobs);
         if let Ok(b) = &bytes {
+            writer_branches(run, case, &seen_buf, b);
             // (outside the quantifier the file may hold raw control characters: not the reader model's sub-language)
             if case.in_quantifier() {
                 correspond_load(run, b, "load:writer-output");
             }
         }
+    }
+    if let Err(e) = &bytes {
+        run.count(if e.starts_with("panic") { "w:save-panic(font page without font)" } else { "w:save-error" });
     }
     if case.has_fonts() {
         run.count("font-pages");
@@ -1037,7 +1295,7 @@ pub fn run(run: &mut Run, seed: u64, thorough: bool, replay: Option<&str>, corpu
                         }
                     }
                 }
-                let case = Case { opts: Opts::from_num(n, false), pic: p, base: vec![], fonts: vec![] };
+                let case = Case { opts: Opts::from_num(n, false), pic: p, base: vec![], fonts: vec![], xfonts: vec![], oll: None, skip: None };
                 one(run, &case, (n as usize + k) % (if thorough { 8 } else { 4 }) == 0, &mut seen_keys);
                 lattice += 1;
             }
@@ -1070,7 +1328,7 @@ pub fn run(run: &mut Run, seed: u64, thorough: bool, replay: Option<&str>, corpu
                 // the colour optimiser is exercised on every second point (bit 6 = lossless output)
                 let bits = enc | if (j + k) % 2 == 0 { 64 } else { 128 };
                 let opts = Opts { prep: ((j + k) % 3) as u8, ctrl: 1, bits, sauce: false };
-                let case = Case { opts, pic: p.clone(), base: base.clone(), fonts: vec![] };
+                let case = Case { opts, pic: p.clone(), base: base.clone(), fonts: vec![], xfonts: vec![], oll: None, skip: None };
                 one(run, &case, (j + k + ice as usize) % (if thorough { 16 } else { 5 }) == 0, &mut seen_keys);
                 colour_cases += 1;
             }
@@ -1092,17 +1350,133 @@ pub fn run(run: &mut Run, seed: u64, thorough: bool, replay: Option<&str>, corpu
             let opts = Opts { prep: ((j + k) % 3) as u8, ctrl: 1, bits: enc | 32 | 64, sauce: true };
             let mut p = pic.clone();
             p.ice = ((j + k) % 3) as u8;
-            let case = Case { opts, pic: p, base: vec![], fonts: vec![] };
+            let case = Case { opts, pic: p, base: vec![], fonts: vec![], xfonts: vec![], oll: None, skip: None };
             one(run, &case, (j + k) % (if thorough { 8 } else { 3 }) == 0, &mut seen_keys);
             wide_cases += 1;
             if pic.w == 80 && j % 2 == 0 {
-                let case = Case { opts: Opts { sauce: false, ..opts }, pic: pic.clone(), base: vec![], fonts: vec![] };
+                let case = Case { opts: Opts { sauce: false, ..opts }, pic: pic.clone(), base: vec![], fonts: vec![], xfonts: vec![], oll: None, skip: None };
                 one(run, &case, false, &mut seen_keys);
                 wide_cases += 1;
             }
         }
     }
     run.extra.push(("geometry_picture_cases".into(), wide_cases.to_string()));
+    // ---- the writer's remaining features, family by family (every branch of the writer model; histogram `w:*`)
+    let mut feature_cases = 0u64;
+    // (1) output_line_length: for each small picture and encoding, limits read off the UNSPLIT file - exactly the length of
+    //     its first / longest line (the line ends at the split column), one below, one above - and fixed small limits
+    let encs: Vec<u8> = if thorough { (0..32u8).collect() } else { vec![0b00011, 0, 0b00111, 0b10011, rng.below(32) as u8] };
+    for (k, pic) in small_pics().iter().enumerate() {
+        for (j, enc) in encs.iter().enumerate() {
+            let opts = Opts { prep: ((j + k) % 3) as u8, ctrl: 1, bits: enc | 32 | 64, sauce: false };
+            let plain = Case { opts, pic: pic.clone(), base: vec![], fonts: vec![], xfonts: vec![], oll: None, skip: None };
+            let mut limits: Vec<usize> = vec![0, 1, 7, 8, 9];
+            if let Ok(b) = save(&plain, &plain.build()) {
+                let mut lens: Vec<usize> = b.split(|c| *c == 10).map(|l| l.len().saturating_sub(1)).collect();
+                lens.push(b.len());
+                lens.sort();
+                lens.dedup();
+                for l in [lens[0], lens[lens.len() / 2], lens[lens.len() - 1]] {
+                    limits.extend([l.saturating_sub(1), l, l + 1]);
+                }
+            }
+            limits.sort();
+            limits.dedup();
+            for (i, n) in limits.iter().enumerate() {
+                if !thorough && (i + j + k + seed as usize) % 3 != 0 {
+                    continue;
+                }
+                let case = Case { oll: Some(*n), ..plain.clone() };
+                one(run, &case, true, &mut seen_keys);
+                feature_cases += 1;
+            }
+        }
+    }
+    // (2) skip_lines with longer-terminal positioning: nothing, first row, last row, every row, a row below the picture,
+    //     a row listed twice; also with a line-length limit; and WITHOUT longer-terminal positioning (ignored)
+    for (k, pic) in small_pics().iter().chain(wide_pics().iter().filter(|p| p.w == 80)).enumerate() {
+        let h = pic.h as usize;
+        let skips: Vec<Vec<usize>> = vec![vec![], vec![0], vec![h - 1], (0..h).collect(), vec![h], vec![0, 0, h / 2], (0..h).filter(|y| y % 2 == 1).collect()];
+        for (j, sk) in skips.iter().enumerate() {
+            if !thorough && (j + k + seed as usize) % 2 != 0 {
+                continue;
+            }
+            let bits = [0b10011u8, 0b10000, 0b10111, 0b00011][(j + k) % 4] | 32 | 64;
+            let opts = Opts { prep: (j % 3) as u8, ctrl: 1, bits, sauce: false };
+            let oll = if (j + k) % 3 == 0 { Some(12 + j) } else { None };
+            let case = Case { opts, pic: pic.clone(), base: vec![], fonts: vec![], xfonts: vec![], oll, skip: Some(sk.clone()) };
+            one(run, &case, true, &mut seen_keys);
+            feature_cases += 1;
+        }
+    }
+    // (3) font pages: slot 0 replaced by another ANSI font, two slots with the SAME font (runs continue across them? no:
+    //     the mapped page is equal, the scan compares mapped pages), a custom font (sent as its slot number), a cell on a page
+    //     without font (`unwrap` panic), font changes inside runs of equal characters / blanks, at row starts, in skipped rows
+    {
+        let ok = cp437_like_fonts();
+        let c = |ch: u32, fg: u32, bg: u32, slot: u16| PCell { ch, fg, bg, flags: slot << 10 };
+        let mut rows: Vec<Vec<PCell>> = Vec::new();
+        // runs of equal cells that change font in the middle; blanks in another font; the font kept across the row break
+        let mut r: Vec<PCell> = (0..12).map(|x| c(88, 7, 0, if x < 6 { 0 } else { 1 })).collect();
+        r.extend((0..10).map(|x| c(32, 7, 0, if x < 5 { 1 } else { 2 })));
+        r.extend((0..8).map(|_| c(89, 2, 0, 2)));
+        rows.push(r);
+        rows.push((0..9).map(|x| c(65 + x, 7, 0, 2)).collect());
+        rows.push((0..9).map(|x| c(65 + x, 7, 0, (x % 3) as u16)).collect());
+        rows.push(vec![c(90, 14, 1, 3), c(90, 14, 1, 3), c(90, 14, 1, 0)]);
+        let pic = Pic { w: 80, h: rows.len() as i32, ice: 2, extra: vec![], rows };
+        let f = |i: usize| ok[i % ok.len()];
+        let font_sets: Vec<(Vec<usize>, Vec<(usize, usize, bool)>)> = vec![
+            (vec![f(3), f(5), f(7)], vec![]),
+            (vec![f(3), f(3), f(7)], vec![]),                   // slots 1 and 2 hold the same font
+            (vec![f(3), f(5), f(7)], vec![(0, f(9), false)]),   // slot 0 is not the default font
+            (vec![f(3), f(5), 0], vec![]),                      // slot 3 holds the default font (page 0)
+            (vec![f(3), f(5), f(7)], vec![(2, f(11), true)]),   // a custom font in slot 2
+            (vec![f(3), f(5)], vec![]),                         // slot 3 has no font: panic in generate_cells
+            (vec![f(3), f(5), f(7)], vec![(0, f(2), true)]),    // a custom font in slot 0
+        ];
+        for (j, (fonts, xfonts)) in font_sets.iter().enumerate() {
+            for (i, bits) in [0b00011u8, 0, 0b00111, 0b10011, 0b01101].iter().enumerate() {
+                if !thorough && (i + j + seed as usize) % 2 != 0 {
+                    continue;
+                }
+                let opts = Opts { prep: (i % 3) as u8, ctrl: 1, bits: bits | 32 | 64, sauce: false };
+                let skip = if bits & 16 != 0 { Some(vec![1usize]) } else { None };
+                let oll = if i % 2 == 1 { Some(9 + i * 7) } else { None };
+                let case = Case { opts, pic: pic.clone(), base: vec![], fonts: fonts.clone(), xfonts: xfonts.clone(), oll, skip };
+                one(run, &case, true, &mut seen_keys);
+                feature_cases += 1;
+            }
+        }
+    }
+    // (4) the UTF-8 indicator: pictures whose file would start with EF BB BF - alone, followed by ASCII, by bytes that are not
+    //     UTF-8, with a second row - under every screen preparation / ice mode / positioning / line-length limit
+    {
+        let c = |ch: u32| PCell { ch, fg: 7, bg: 0, flags: 0 };
+        let heads: Vec<Vec<PCell>> = vec![
+            vec![c(239), c(187), c(191)],
+            vec![c(239), c(187), c(191), c(65), c(66)],
+            vec![c(239), c(187), c(191), c(200), c(65)],
+            vec![c(239), c(187), c(191), c(195), c(169)],
+            vec![c(239), c(187), c(65)],
+            vec![PCell { ch: 239, fg: 2, bg: 0, flags: 0 }, c(187), c(191)],
+        ];
+        for (j, head) in heads.iter().enumerate() {
+            for ice in 0..3u8 {
+                for (i, (bits, prep, oll)) in [(0u8, 0u8, None), (0b00011, 0, None), (0, 1, None), (0b10000, 0, None), (0, 0, Some(2usize)), (0b00011, 0, Some(100)), (0, 2, Some(0))].iter().enumerate() {
+                    if !thorough && (i + j + ice as usize + seed as usize) % 2 != 0 {
+                        continue;
+                    }
+                    let pic = Pic { w: 80, h: 2, ice, extra: vec![], rows: vec![head.clone(), vec![c(90)]] };
+                    let opts = Opts { prep: *prep, ctrl: 1, bits: bits | 32 | 64, sauce: j % 2 == 1 };
+                    let case = Case { opts, pic, base: vec![], fonts: vec![], xfonts: vec![], oll: *oll, skip: None };
+                    one(run, &case, true, &mut seen_keys);
+                    feature_cases += 1;
+                }
+            }
+        }
+    }
+    run.extra.push(("writer_feature_cases".into(), feature_cases.to_string()));
     // seeded larger pictures, random options
     for k in 0..(if thorough { 4000 } else { 250 }) {
         let opts = Opts { prep: rng.below(3) as u8, ctrl: rng.below(3) as u8, bits: rng.below(256) as u8, sauce: k % 3 == 0 };
@@ -1133,7 +1507,26 @@ pub fn run(run: &mut Run, seed: u64, thorough: bool, replay: Option<&str>, corpu
                 }
             }
         }
-        let case = Case { opts, pic, base, fonts };
+        // one picture in four is saved with a maximal output line length (CSI s / CR LF / CSI u splitting), one in six with
+        // rows to leave out (effective together with longer-terminal positioning)
+        let oll = if k % 4 == 2 { Some(*rng.pick(&[0usize, 1, 2, 3, 4, 5, 7, 10, 16, 20, 40, 78, 79, 80, 81, 100, 160, 200, 1000])) } else { None };
+        let skip = if k % 6 == 4 {
+            let n = pic.h.max(1) as u64;
+            Some((0..rng.range(0, 3)).map(|_| rng.below(n + 1) as usize).collect::<Vec<_>>())
+        } else {
+            None
+        };
+        let mut opts = opts;
+        if skip.is_some() && rng.chance(3, 4) {
+            opts.bits |= 16;
+        }
+        // font pictures: now and then slot 0 holds another ANSI font, or one of the slots a custom font (outside the quantifier)
+        let mut xfonts = Vec::new();
+        if !fonts.is_empty() && rng.chance(1, 3) {
+            let ok = cp437_like_fonts();
+            xfonts.push((if rng.chance(1, 2) { 0 } else { rng.range(1, fonts.len() as i64) as usize }, *rng.pick(&ok), rng.chance(1, 3)));
+        }
+        let case = Case { opts, pic, base, fonts, xfonts, oll, skip };
         if let Some(b) = one(run, &case, true, &mut seen_keys) {
             if k % 2 == 0 && !opts.sauce {
                 let m = mutate_rows(&mut rng, &b);
